@@ -39,7 +39,7 @@ CLAIMED = {
         'by an event on that job, and at quiescence every accepted job is '
         'resolved and the cache consistent. Exploration: no claim of absence.',
         'Workers are simulated (engines/simpool.py); parent-thread races are below '
-        'the atomic step; zones of open known findings (D4/D7/D9/D10/D13) are '
+        'the atomic step; zones of open known findings (D7/D10) are '
         'excluded by construction and replayed once per run.',
         'DESIGN.md section 3 C01, section 2 E1'),
     'C02': (
@@ -67,9 +67,9 @@ CLAIMED = {
         'not before timeout after the reaping step, and is resolved by the first '
         'supervision step after it; the text names the real status; other jobs '
         'are unaffected. Exploration level.',
-        'Simulated workers; losses of imap parts (D4/D13) and deaths reaped before '
-        'their ACK is consumed (D7) are open known findings, excluded by '
-        'construction and replayed.',
+        'Simulated workers; deaths reaped before their ACK is consumed (D7) are '
+        'an open known finding, excluded by construction and replayed; losses of '
+        'imap parts are judged item by item since the D4/D13/D9 repair.',
         'DESIGN.md section 3 C04'),
     'C05': (
         'simpool',
